@@ -1373,6 +1373,14 @@ class FnTranslator:
                     self.block(list(some_side or []) + rest, env2, ret))
             if len(s.body) == 1 and isinstance(s.body[0], ast.Assign) and self.target_key(s.body[0].targets[0]) == name:
                 d = self.expr(s.body[0].value, env)
+                if d[1] == 'OB':
+                    # [loop ties e4] `if x is None: x = <an optional boolean>` (e.g. a guess that may itself be missing): x stays
+                    # an optional boolean -- its own value when it has one, else the default's
+                    nm = self.new(name)
+                    env2 = dict(env)
+                    env2[name] = (nm, 'OB')
+                    return '(let %s := (match %s with Some _ => %s | None => %s end) in\n   %s)' % (
+                        nm, env[name][0], env[name][0], d[0], self.block(rest, env2, ret))
                 if d[1] != 'B':
                     raise Refuse('%s: default of the optional boolean %s has type %s' % (self.rel, name, d[1]))
                 nm = self.new(name)
